@@ -687,6 +687,53 @@ def _report_val(chk, func, v: Val, what: str, sink: ast.AST) -> None:
         )
 
 
+def _r15e(chk, repo) -> None:
+    import re as _re
+
+    from ..grammar import load_grammar
+
+    in_selftest = getattr(chk, "in_selftest", False)
+    g = load_grammar(repo, cache=not in_selftest)
+    # the types the CP rules seek (read from their crawl_behaviour declarations)
+    crawled: Set[str] = set()
+    for m in repo.iter_modules("src/sqlfluff/rules/capitalisation/"):
+        for n in ast.walk(m.tree):
+            if isinstance(n, ast.Call) and last_attr(n) == "SegmentSeekerCrawler" and n.args and isinstance(n.args[0], (ast.Set, ast.List, ast.Tuple)):
+                crawled |= {e.value for e in n.args[0].elts if isinstance(e, ast.Constant) and isinstance(e.value, str)}
+    chk.count("R15e.crawled_types", len(crawled))
+    chk.floor("R15e.crawled_types", 8)
+    samples = ['"ab"', "'ab'", "`ab`", "[ab]"]
+    n = 0
+    for name, dg in sorted(g.items()):
+        seen = set()
+        for node in dg.iter_nodes(family="parser"):
+            its = set(node.get("instance_types") or ())
+            if node.get("raw_class_type"):
+                its.add(node.get("raw_class_type"))
+            hit = sorted(its & crawled)
+            tpl = node.get("template")
+            if not hit or node.get("kind") != "RegexParser" or not isinstance(tpl, str):
+                continue
+            n += 1
+            try:
+                rx = _re.compile(tpl, _re.IGNORECASE)
+            except _re.error:
+                continue
+            quoted = [x for x in samples if rx.fullmatch(x)]
+            if not quoted or tuple(hit) in seen:
+                continue
+            seen.add(tuple(hit))
+            chk.fail(
+                "R15e", None,
+                f"dialect '{name}': the parser for {hit} accepts quoted text such as {quoted}: the capitalisation rule that crawls {hit} edits the whole token and re-cases a quoted, "
+                "case-sensitive name",
+                detail=f"crawled type is never a quoted name; dialect={name} type={'/'.join(hit)}",
+                construct=f"src/sqlfluff/dialects/dialect_{name}.py", loc=(f"src/sqlfluff/dialects/dialect_{name}.py", 0),
+            )
+    chk.count("R15e.regex_parsers_of_crawled_types", n)
+    chk.floor("R15e.regex_parsers_of_crawled_types", 30 if not in_selftest else 1)
+
+
 def _r15d(chk, repo) -> None:
     """CP01 crawls every segment that is_type("keyword") -- class types included -- and edits its raw.  A parser
     that hands a quoted literal (`'GZIP'`) to KeywordSegment makes the rule re-case a string literal."""
@@ -728,6 +775,8 @@ def run(chk) -> None:
     repo = chk.repo
     chk.rule("R15d", "no dialect lets a quoted string be a keyword: no StringParser / MultiStringParser / RegexParser that produces keyword segments (the class CP01 re-cases) has a template that starts with a quote character")
     _r15d(chk, repo)
+    chk.rule("R15e", "no segment type the capitalisation rules crawl can be a quoted name: in every dialect, no RegexParser that produces one of the crawled types (naked identifiers, function names, data type identifiers, ...) accepts a text enclosed in quote characters (\", ', `, [ ])")
+    _r15e(chk, repo)
     mods, funcs, classes = _scope(chk)
     ctx = Ctx(chk, funcs, mods)
 
@@ -972,6 +1021,12 @@ _WORD_RX = "\"([^a-zA-Z0-9]+|^)([a-zA-Z0-9])([a-zA-Z0-9]*)\""
 SELFTEST_NEEDS_FILES = True  # R15d reads the dialect grammar through the front-end, which imports the tree from disk
 
 VARIANTS = [
+    Variant(
+        "cp02-also-crawls-parameters", "src/sqlfluff/rules/capitalisation/CP02.py",
+        '        {"naked_identifier", "properties_naked_identifier"}\n',
+        '        {"naked_identifier", "properties_naked_identifier", "parameter"}\n',
+        "R15e", None, "seeded C15-7: quoted function parameter names are re-cased",
+    ),
     Variant(
         "quoted-warehouse-sizes-become-keywords", "src/sqlfluff/dialects/dialect_snowflake.py",
         '            [f"\'{size}\'" for size in snowflake_dialect.sets("warehouse_sizes")],\n            CodeSegment,\n',
